@@ -438,7 +438,7 @@ func genPrioScenario(rng *rand.Rand, g prioGen) PrioScenario {
 			}
 		}
 	}
-	if g.Mode == "general" && !sc.Starved && rng.IntN(8) == 0 {
+	if g.Mode == "general" && !sc.Starved && rng.IntN(4) == 0 {
 		// one buffered input has a second consumer: whatever it takes is not the discipline's
 		var buffered []int
 		for i, in := range sc.Inputs {
@@ -472,6 +472,32 @@ func genPrioScenario(rng *rand.Rand, g prioGen) PrioScenario {
 		sc.Script = append(sc.Script, POp{K: "W", P: p, N: n})
 	}
 	closed := map[uint]bool{}
+	if g.Mode == "general" && len(prios) >= 2 && !sc.Starved && rng.IntN(8) == 0 {
+		// one priority alone takes more than its share, its input is closed and seen drained
+		// while those items are still held, and only then the others get data
+		lone := prios[rng.IntN(len(prios))]
+		if sh := int(sharesOf(div, prios, sc.H)[lone]); sh < H {
+			k := sh + 1 + rng.IntN(H-sh)
+			for i := range sc.Inputs {
+				if sc.Inputs[i].P == lone {
+					sc.Inputs[i].Cap, sc.Inputs[i].Prefill = k, 0
+				} else {
+					sc.Inputs[i].Prefill = 0
+				}
+			}
+			left[lone] = 0
+			closed[lone] = true
+			sc.Script = append(sc.Script, POp{K: "W", P: lone, N: k}, POp{K: "D"}, POp{K: "C", P: lone}, POp{K: "D"})
+			for _, p := range prios {
+				if p != lone && left[p] > 0 {
+					n := 1 + rng.IntN(left[p])
+					left[p] -= n
+					sc.Script = append(sc.Script, POp{K: "W", P: p, N: n})
+				}
+			}
+			sc.Script = append(sc.Script, POp{K: "D"})
+		}
+	}
 	steps := 6 + rng.IntN(30)
 	for i := 0; i < steps; i++ {
 		switch k := rng.IntN(20); {
